@@ -45,7 +45,14 @@ func (e *BinaryExpr) Evaluate(engine *Engine, input interface{}, args []*Stateme
 				return nil, err
 			}
 
-			results = reflect.Append(results, reflect.ValueOf(result))
+			// The element may itself be a list (a list of lists): its
+			// result is then a list of answers, not an answer.
+			answer, ok := result.(bool)
+			if !ok {
+				return nil, fmt.Errorf("cannot apply %s to a list of lists", e.Operator)
+			}
+
+			results = reflect.Append(results, reflect.ValueOf(answer))
 		}
 
 		return results.Interface(), nil
